@@ -1,4 +1,5 @@
 """C05 (notation parses to its standard meaning), C09 (parsers are total), C10 (parsed ranges are valid)."""
+from concurrent.futures import ThreadPoolExecutor
 import json
 from vlib import *
 import gen
@@ -77,7 +78,7 @@ def c05(chk, opts):
 def _c09_trace(chk, thorough):
     trace = chk.path("c09.ndjson")
     hx(["c09", "--seed", chk.seed, "--maxlen", 4 if thorough else 3, "--edits", 40000 if thorough else 6000, "--unicode", 20000 if thorough else 3000,
-        "--threads", NCPU, "--out", trace], timeout=3000)
+        "--huge", 1 if thorough else 0, "--threads", NCPU, "--out", trace], timeout=3000)
     return trace
 
 
@@ -87,11 +88,13 @@ def c09(chk, opts):
     build("dev")
     r = tlc("MCParser", cfg="MCParserThorough.cfg" if thorough else "MCParser.cfg", timeout=3000, heap="8g")
     chk.add_tlc(r, "MCParser(all strings <= %d over 22 chars)" % (5 if thorough else 4))
-    trace = _c09_trace(chk, thorough)
-    # the same calls in a debug build (overflow checks and debug assertions on), on a smaller corpus
+    # the same calls in a debug build (overflow checks and debug assertions on), on a smaller corpus; both recorders run at once
     tdev = chk.path("c09-dev.ndjson")
-    hx(["c09", "--seed", chk.seed, "--maxlen", 2, "--edits", 6000 if thorough else 1500, "--unicode", 1500 if thorough else 400, "--sfx-len", 2,
-        "--threads", NCPU, "--out", tdev], profile="dev", timeout=3000)
+    with ThreadPoolExecutor(max_workers=2) as ex:
+        fdev = ex.submit(hx, ["c09", "--seed", chk.seed, "--maxlen", 2, "--edits", 6000 if thorough else 1500, "--unicode", 1500 if thorough else 400, "--sfx-len", 2,
+                              "--threads", NCPU, "--out", tdev], profile="dev", timeout=3000)
+        trace = _c09_trace(chk, thorough)
+        fdev.result()
     with open(trace, "a") as f:
         f.write(open(tdev).read())
     r, events, bad = validate_independent(chk, "TraceNotation", trace, "TraceNotation(C09)", cfg="TraceNotationC09.cfg", heap="10g", timeout=3000)
